@@ -405,7 +405,7 @@ def oracle(line, resp, mode):
             out.append(('second-history-shape', ' '.join(t2)))
         elif t2[2] != '1' or t2[4] != '1':
             out.append(('encoder-not-function-of-shape', ' '.join(t2)))
-    if pf.get('leak') not in ('0',):
+    if pf.get('leak') not in ('0', '-1'):      # -1: links already reported as inconsistent, no teardown
         out.append(('leak', pf.get('leak', '?')))
     p = pf.get('P')
     if p and p[0] == '0':
@@ -429,7 +429,7 @@ def judge(exe, env, line, mode):
     a, rc, err = corr.isolate(exe, line, env=env, timeout=60)
     m, rcm, errm = corr.isolate(DRIVER, line, timeout=60)
     crash = None
-    if rc != 0 or a is None:
+    if (rc not in (0, 77)) or a is None:      # 77 = the harness ends its process after a line that lost memory
         crash = f'rc={rc} ' + (err or '')[-2500:]
     orc = oracle(line, a, mode) if not crash else []
     pa = split_resp(a)
@@ -626,6 +626,16 @@ def run(res, args):
         if reported >= 6:
             break
         i = min(idxs, key=lambda q: len(lines[q]))
+        if cls == 'leak':
+            # LSan scans conservatively: a lost block can stay "reachable" through stale stack words and be
+            # reported one or two lines late. Attribute to the line that loses memory when run alone.
+            cand = []
+            for q in sorted(idxs, key=lambda q: len(lines[q]))[:12]:
+                cand += [q, q - 1, q - 2]
+            for q in cand:
+                if 0 <= q < len(lines) and 'leak' in classes(judge(exe, env, lines[q], modes[q])):
+                    i = q
+                    break
         k = match_known(known, cls, lines[i])
         if k and all(match_known(known, cls, lines[q]) for q in idxs[:50]):
             if k['id'] not in seen_known:
